@@ -67,7 +67,7 @@ let c06 toks =
         match toks with
         | [] -> ()
         | "S" :: s :: _ :: _ :: _ :: _ :: _ :: tl when is_dead s -> go tl
-        | ("K" | "R") :: s :: _ :: tl when is_dead s -> go tl
+        | ("K" | "R" | "X") :: s :: _ :: tl when is_dead s -> go tl
         | "P" :: s :: _ :: _ :: tl when is_dead s -> go tl
         | "N" :: s :: _ :: _ :: _ :: tl when is_dead s -> go tl
         | "A" :: dt :: tl -> step (RtAdvance (zi dt)); go tl
@@ -95,6 +95,7 @@ let c06 toks =
               step (RtDisconnect (z_of_int si, zi reason)); dead.(si) <- true
             end;
             go tl
+        | "X" :: s :: mid :: tl -> step (RtDelete (sess s, zi mid)); go tl
         | "I" :: tmo :: tl -> step (RtIoProcess (zi tmo)); go tl
         | "Q" :: tl -> step RtDump; go tl
         | _ -> failwith "c06 event" in
